@@ -10,6 +10,7 @@ import (
 	"path/filepath"
 	"regexp"
 	"runtime/debug"
+	"runtime/pprof"
 	"sort"
 	"strings"
 	"time"
@@ -155,21 +156,21 @@ func (in *Interp) initPackage(p *ssa.Package) {
 }
 
 type RunResult struct {
-	Harness      string        `json:"harness"`
-	Paths        int           `json:"paths"`
+	Harness      string         `json:"harness"`
+	Paths        int            `json:"paths"`
 	PathEnds     map[string]int `json:"path_ends"`
-	Obligations  int           `json:"obligations"`
-	Discharged   int           `json:"discharged"`
-	Trivial      int           `json:"trivial"`
-	Branches     int           `json:"branches"`
-	Queries      int           `json:"queries"`
-	SolverMs     int64         `json:"solver_ms"`
-	WallMs       int64         `json:"wall_ms"`
-	Findings     []Finding     `json:"findings"`
-	Inconclusive []string      `json:"inconclusive"`
+	Obligations  int            `json:"obligations"`
+	Discharged   int            `json:"discharged"`
+	Trivial      int            `json:"trivial"`
+	Branches     int            `json:"branches"`
+	Queries      int            `json:"queries"`
+	SolverMs     int64          `json:"solver_ms"`
+	WallMs       int64          `json:"wall_ms"`
+	Findings     []Finding      `json:"findings"`
+	Inconclusive []string       `json:"inconclusive"`
 	Reached      map[string]int `json:"reached"`
-	Instrs       int64         `json:"instrs"`
-	Sample       *Finding      `json:"sample,omitempty"`
+	Instrs       int64          `json:"instrs"`
+	Sample       *Finding       `json:"sample,omitempty"`
 }
 
 // runHarness explores all paths of one harness function.
@@ -271,7 +272,7 @@ func trimStack(b []byte) string {
 		if strings.Contains(l, "gosym") || strings.Contains(l, "main.") {
 			out = append(out, strings.TrimSpace(l))
 		}
-		if len(out) > 16 {
+		if len(out) > 6 {
 			break
 		}
 	}
@@ -355,7 +356,14 @@ func cmdRun(args []string) int {
 	shard := fs.Int("shard", 0, "")
 	nshards := fs.Int("nshards", 1, "")
 	verbose := fs.Bool("v", false, "")
+	cpuprof := fs.String("cpuprofile", "", "")
+	hardReset := fs.Bool("hardreset", false, "use (reset) between paths instead of pop/push")
 	fs.Parse(args)
+	if *cpuprof != "" {
+		f, _ := os.Create(*cpuprof)
+		pprof.StartCPUProfile(f)
+		defer pprof.StopCPUProfile()
+	}
 	t0 := time.Now()
 	w, err := loadWorld(*repo, []string{*pkgPat}, *overlay, false)
 	if err != nil {
@@ -370,6 +378,7 @@ func cmdRun(args []string) int {
 		return 2
 	}
 	defer solver.Close()
+	solver.hardReset = *hardReset
 	st := &Stats{funcs: map[string]int{}, stubs: map[string]int{}}
 	var results []*RunResult
 	sp := w.mainPkg(*pkgPat)
